@@ -85,3 +85,51 @@ var %s fp.Ord[bool] = ord.New(fp.EqGiven[bool](), func(a, b bool) bool { return 
 			})
 		})
 }
+
+// Several instance functions of one rank for the same type, found by TYPE (their names are not the canonical
+// EqBox), declared in different source files of the working package: which of them a derived instance calls is
+// the generator's business; that it is the same one in every run is C13's. (Added after an independently seeded
+// change that broke ties between equally ranked instances by token.Pos, which is not ordered across the files
+// of a package.)
+func tiedInstancesCheck(t *testing.T, env *scratchEnv) {
+	kit.Check(t, "scratch/determinism-tied-instances",
+		"scratch module: working package `pa` with a hand-written generic type Box[T], 2-6 instance functions EqBox<X>[T](fp.Eq[T]) fp.Eq[Box[T]] (and optionally ShowBox<X>) with non-canonical names, each in a source file of its own (drawn names sorting before and after types.go), and 1-2 @fp.Value structs with Box[int] / Box[string] fields deriving Eq (and Show); gombok (built from the tree) run on three identical copies with GOMAXPROCS=1/16/default and once more on top of its own output; non-trivial iff gombok accepted the package and wrote >= 1 non-empty file; distinct by source text",
+		kit.Opt{MinChecks: 2, HangAfter: 20 * time.Minute},
+		func(rt *rapid.T, rec *kit.Rec) {
+			k := rapid.IntRange(2, 6).Draw(rt, "candidates")
+			files := rapid.Permutation([]string{"a_inst.go", "b.go", "inst_m.go", "u.go", "zz.go", "c_more.go", "x.go"}).Draw(rt, "files")[:k]
+			names := rapid.Permutation([]string{"A", "B", "Left", "Right", "Zed", "Mid", "Q"}).Draw(rt, "names")[:k]
+			withShow := rapid.Bool().Draw(rt, "show")
+			extra := map[string]string{}
+			for i := 0; i < k; i++ {
+				var sb strings.Builder
+				sb.WriteString("package pa\n\nimport (\n\t\"github.com/csgura/fp\"\n\t\"github.com/csgura/fp/eq\"\n\t\"github.com/csgura/fp/show\"\n)\n\nvar _ = show.String\n\n")
+				fmt.Fprintf(&sb, "// candidate %d\nfunc EqBox%s[T any](e fp.Eq[T]) fp.Eq[Box[T]] {\n\treturn eq.New(func(a, b Box[T]) bool { return e.Eqv(a.V, b.V) && %d > 0 })\n}\n\n", i+1, names[i], i+1)
+				if withShow {
+					fmt.Fprintf(&sb, "func ShowBox%s[T any](s fp.Show[T]) fp.Show[Box[T]] {\n\treturn show.New(func(b Box[T]) string { return \"box%d(\" + s.Show(b.V) + \")\" })\n}\n", names[i], i+1)
+				}
+				extra["pa/"+files[i]] = sb.String()
+			}
+			var sb strings.Builder
+			sb.WriteString("package pa\n\nimport (\n\t\"github.com/csgura/fp\"\n\t\"github.com/csgura/fp/eq\"\n\t\"github.com/csgura/fp/show\"\n)\n\nvar _ = eq.String\nvar _ = show.String\n\n// Box is hand-written; its instances are the functions in the other files\ntype Box[T any] struct {\n\tV T\n}\n\n")
+			ns := rapid.IntRange(1, 2).Draw(rt, "structs")
+			for i := 1; i <= ns; i++ {
+				fmt.Fprintf(&sb, "// @fp.Value\ntype H%d struct {\n\titem Box[%s]\n\tn    int\n", i, []string{"int", "string"}[i-1])
+				if rapid.Bool().Draw(rt, "second") {
+					fmt.Fprintf(&sb, "\tmore Box[%s]\n", []string{"string", "int"}[i-1])
+				}
+				sb.WriteString("}\n\n")
+				fmt.Fprintf(&sb, "// @fp.Derive\nvar _ eq.Derives[fp.Eq[H%d]]\n\n", i)
+				if withShow {
+					fmt.Fprintf(&sb, "// @fp.Derive\nvar _ show.Derives[fp.Show[H%d]]\n\n", i)
+				}
+			}
+			env.extra = extra
+			env.decide(rt, rec, "C13|scratch-tied-instances", sb.String(), func() {
+				rec.Label(fmt.Sprintf("candidates:%d", k))
+				if withShow {
+					rec.Label("derive:Show")
+				}
+			})
+		})
+}
